@@ -110,7 +110,7 @@ func envCase(c Case, dir string) string {
 			s += fmt.Sprintf("%sX: %s\n", indent, c.val(l, "x"))
 		}
 		if has(c.Second, l) {
-			s += fmt.Sprintf("%sY: %s\n", indent, c.val(l, "y"))
+			s += fmt.Sprintf("%sW: %s\n", indent, c.val(l, "y"))
 		}
 		return s
 	}
@@ -119,12 +119,12 @@ func envCase(c Case, dir string) string {
 		env = append(env, "X="+c.val(1, "x"))
 	}
 	if has(c.Second, 1) {
-		env = append(env, "Y="+c.val(1, "y"))
+		env = append(env, "W="+c.val(1, "y"))
 	}
 	if has(c.Levels, 2) || has(c.Second, 2) {
 		y.WriteString("contexts:\n  c1:\n    env:\n" + vars(c.Levels, 2, "      "))
 	}
-	y.WriteString("tasks:\n  t1:\n    command: 'echo \"OBS X=$X Y=$Y P=$PASS TN=$TASK_NAME\"'\n")
+	y.WriteString("tasks:\n  t1:\n    command: 'echo \"OBS X=$X Y=$W P=$PASS TN=$TASK_NAME\"'\n")
 	if has(c.Levels, 2) || has(c.Second, 2) {
 		y.WriteString("    context: c1\n")
 	}
@@ -134,7 +134,7 @@ func envCase(c Case, dir string) string {
 			f += "X=" + c.val(3, "x") + "\n"
 		}
 		if has(c.Second, 3) {
-			f += "Y=" + c.val(3, "y") + "\n"
+			f += "W=" + c.val(3, "y") + "\n"
 		}
 		os.WriteFile(filepath.Join(dir, "t1.env"), []byte(f), 0o644)
 		y.WriteString("    env_file: t1.env\n")
@@ -153,7 +153,7 @@ func envCase(c Case, dir string) string {
 			if !first {
 				y.WriteString("        ")
 			}
-			y.WriteString("Y: " + c.val(6, "y") + "\n")
+			y.WriteString("W: " + c.val(6, "y") + "\n")
 		}
 	}
 	target := "t1"
